@@ -341,6 +341,24 @@ def case_rigid(fam, rep):
             job = fem.FreeVibration([solid]).evaluate(k=k, solver=shifted_solver(-1e-3 * scale))
             lam = np.sort(job.eigenvalues)
             nz = int(np.sum(np.abs(lam) < 1e-7 * lam[nrig]))
+            # the same unconstrained body on a mesh that carries points without cells (as the sub-meshes of a merged container do):
+            # their unknowns are prescribed, the spectrum is the one of the body
+            mx = mesh.copy()
+            mx.update(points=np.vstack([mesh.points, mesh.points.max(0) + 0.5, mesh.points.min(0) - 0.7]))
+            fx = problems.field_for(fam, mx, "3d" if d == 3 else "planestrain")
+            sx = fem.SolidBody(solid.umat, fx, density=rho, multiplier=solid.assemble.multiplier)
+            jx = fem.FreeVibration([sx])
+            try:
+                jx.evaluate(k=k, solver=shifted_solver(-1e-3 * scale))
+                run.compare("modal.rigid", "clause=points-without-cells-do-not-change-the-spectrum", maxabs(np.sort(jx.eigenvalues) - lam) / max(maxabs(lam), 1e-300), 1e-7,
+                            "an unconstrained body on a mesh with cell-less points has another spectrum than on its own mesh", unit="modal:cell-less-points")
+            except RuntimeError as exc:
+                free = np.asarray(getattr(jx, "dof1", []))
+                cellless = np.arange(mesh.npoints * d, mx.npoints * d)
+                if np.intersect1d(free, cellless).size:
+                    run.fail("modal", "clause=free-unknowns cell-less points", "unknowns of points without cells are left free (the eigen-solver fails: %s)" % str(exc)[:60])
+                else:
+                    raise
             if nz == nrig:
                 run.ok("modal.rigid", unit="modal:rigid-modes:%dd" % d, config=("rigid", fam), sample={"family": fam, "eigenvalues": lam.tolist()})
             else:
@@ -434,7 +452,7 @@ def cases(tier, seed):
 SPEC = {
     "required_units": ["modal:residual", "modal:prescribed", "modal:scatter", "modal:frequency", "modal:rigid-modes:2d", "modal:rigid-modes:3d",
                        "modal:invariance", "modal:mixed-container", "modal:prestretched", "modal:orthogonal", "modal:items>=2", "modal:parallel",
-                       "modal:item:SolidBodyNearlyIncompressible", "modal:other-unit-system", "modal:unit-sweep", "modal:spectrum", "modal:mass-definition", "modal:sub-mesh-items", "modal:re-evaluated-with-other-boundaries"],
+                       "modal:item:SolidBodyNearlyIncompressible", "modal:other-unit-system", "modal:unit-sweep", "modal:spectrum", "modal:mass-definition", "modal:sub-mesh-items", "modal:re-evaluated-with-other-boundaries", "modal:cell-less-points"],
     "rule": ("linear-elastic bodies on 8 element families (3D and plane strain) with random box dimensions, elastic constants, densities, three "
              "kinds of boundary dictionaries, 1..12 requested modes; unconstrained bodies through a solver= with a small negative shift; "
              "mixed u/p/J container; every evaluate()/extract() is judged by the post-hooks with K and M re-assembled from item copies; a "
